@@ -1,4 +1,5 @@
 import EsbuildModel.Lemmas.DataUrl
+import EsbuildModel.Lemmas.Order
 /-! # C02 — bundling preserves module-graph semantics: property theorems
 So far: the value obtained by importing a file through the data-URL loader is exactly the file's bytes. -/
 namespace EsbuildModel.C02
@@ -16,4 +17,92 @@ theorem dataurl_no_stripped_bytes (t : List Nat) (hb : ∀ c ∈ t, c < 256) :
 /-- non-vacuity on a tricky input: "%41#\t " -/
 example : enc [37, 52, 49, 35, 9, 32] = [37,50,53, 52, 49, 37,50,51, 37,48,57, 37,50,48] ∧
           dec (enc [37, 52, 49, 35, 9, 32]) = [37, 52, 49, 35, 9, 32] := by decide
+
+/-! ## The order in which the linker emits the files of a chunk (findImportedPartsInJSOrder)
+
+`Order.succ files f` is the list of files whose import records the linker follows from `f`, in source order
+(import statements always; `require()`/`import()` of parts that are in the chunk).  For an ES module this is
+its [[RequestedModules]] list, and `Dfs.run succ n [e]` is literally ECMAScript's InnerModuleEvaluation order
+(mark on entry, requested modules first and in order, then the module itself). -/
+open EsbuildModel.Order EsbuildModel.Dfs in
+/-- For every well-formed linker input the traversal terminates without an out-of-range access, emits every
+file AT MOST ONCE, emits exactly the chunk's files that a root reaches, and emits an imported file BEFORE
+the file that imports it unless the two are on an import cycle. -/
+theorem chunk_file_order (files : List File) (roots : List (Nat × Nat × Nat)) (hwf : WFOrder files)
+    (h0 : 0 < files.length) (hroots : ∀ r ∈ roots, r.1 < files.length) :
+    ∃ js parts, run files roots = some (js, parts) ∧ js.Nodup ∧
+      (∀ f, f ∈ js ↔ keep files f = true ∧ ∃ r, (r = 0 ∨ ∃ x ∈ roots, x.1 = r) ∧ Reach (succ files) r f) ∧
+      (∀ a b, a ∈ js → keep files b = true → Edge (succ files) a b → ¬ Reach (succ files) b a → Before js b a) := by
+  have hr' : ∀ r ∈ 0 :: (sortRoots roots).map (·.1), r < files.length := by
+    intro r hr
+    rcases List.mem_cons.1 hr with rfl | hr
+    · exact h0
+    · obtain ⟨x, hx, rfl⟩ := List.mem_map.1 hr
+      exact hroots x ((mem_sortRoots roots x).1 hx)
+  obtain ⟨o, ho, hnd, hcov, htopo⟩ := run_spec (wf_succ hwf) _ hr'
+  have hjs := run_js files roots
+  rw [ho] at hjs
+  cases hrun : run files roots with
+  | none => simp [hrun] at hjs
+  | some res =>
+    obtain ⟨js, parts⟩ := res
+    simp only [hrun, Option.map_some, Option.some.injEq] at hjs
+    subst hjs
+    have hsound := run_sound _ o ho
+    refine ⟨_, parts, rfl, hnd.filter _, ?_, ?_⟩
+    · intro f
+      rw [List.mem_filter]
+      constructor
+      · rintro ⟨hf, hk⟩
+        obtain ⟨r, hr, hreach⟩ := hsound f hf
+        refine ⟨hk, r, ?_, hreach⟩
+        rcases List.mem_cons.1 hr with rfl | hr
+        · exact Or.inl rfl
+        · obtain ⟨x, hx, rfl⟩ := List.mem_map.1 hr
+          exact Or.inr ⟨x, (mem_sortRoots roots x).1 hx, rfl⟩
+      · rintro ⟨hk, r, hr, hreach⟩
+        refine ⟨hcov r ?_ f hreach, hk⟩
+        rcases hr with rfl | ⟨x, hx, rfl⟩
+        · simp
+        · exact List.mem_cons_of_mem _ (List.mem_map.2 ⟨x, (mem_sortRoots roots x).2 hx, rfl⟩)
+    · intro a b ha hkb hedge hncyc
+      rw [List.mem_filter] at ha
+      rcases htopo a ha.1 b hedge with hb | hr
+      · exact Before.filter _ hb hkb ha.2
+      · exact absurd hr hncyc
+
+open EsbuildModel.Order EsbuildModel.Dfs in
+/-- When the first root in the linker's sort order (the entry point: distance 0) reaches every other file
+of the chunk over followed imports, the emitted file order is exactly ECMAScript's evaluation order from
+that entry point (after the runtime), restricted to the chunk's files: the extra roots and the
+interleaving with part emission change nothing. -/
+theorem chunk_file_order_is_esm_evaluation_order (files : List File) (roots : List (Nat × Nat × Nat))
+    (hwf : WFOrder files) (h0 : 0 < files.length) (e : Nat) (rest : List Nat) (he : e < files.length)
+    (hsorted : (sortRoots roots).map (·.1) = e :: rest)
+    (hreach : ∀ r ∈ rest, Reach (succ files) e r) :
+    (run files roots).map (·.1) = (Dfs.run (succ files) files.length [0, e]).map (·.filter (keep files)) := by
+  rw [run_js, hsorted]
+  have := run_extra_roots (wf_succ hwf) [0, e] rest
+    (by intro r hr; simp at hr; rcases hr with rfl | rfl <;> assumption)
+    (fun x hx => ⟨e, by simp, hreach x hx⟩)
+  simp only [List.cons_append, List.nil_append] at this
+  rw [this]
+
+/-- non-vacuity: runtime 0; entry 1 imports 2 and 3 (one part each, import parts first), 2 imports 3,
+3 imports 1 (cycle); file 4 is a wrapped CommonJS file required by 3.  All hypotheses hold; the order is
+runtime, 4, 3, 2, 1 and the wrapped file's block comes first. -/
+example :
+    let imp (t : Nat) : Order.Part := ⟨true, false, [⟨t, true, false⟩]⟩
+    let body : Order.Part := ⟨true, true, []⟩
+    let ns : Order.Part := ⟨false, true, []⟩
+    let files : List Order.File := [
+      ⟨true, true, true, [ns, body]⟩,
+      ⟨true, true, true, [ns, imp 2, imp 3, body]⟩,
+      ⟨true, true, true, [ns, imp 3, body]⟩,
+      ⟨true, true, true, [ns, imp 1, ⟨true, true, [⟨4, false, false⟩]⟩]⟩,
+      ⟨true, true, false, [ns, body]⟩]
+    Order.run files [(3, 1, 3), (1, 0, 1), (4, 2, 4), (2, 1, 2)] =
+      some ([0, 4, 3, 2, 1], [⟨0, 1, 2⟩, ⟨4, 0, 2⟩, ⟨3, 2, 3⟩, ⟨2, 2, 3⟩, ⟨1, 3, 4⟩]) := by
+  decide
+
 end EsbuildModel.C02
